@@ -760,8 +760,8 @@ func c05R13(c *Ctx, r *Report) {
 		if !isC || k != 1 {
 			return false
 		}
-		p := vpath(ci.Call.Args[0])
-		return strings.HasSuffix(p, "workerCnt") || strings.HasSuffix(p, "taskCnt") || strings.HasSuffix(p, "microTaskCnt")
+		_, isCounter := counterOf(counterPath(ci.Call.Args[0]))
+		return isCounter
 	}
 	mods := funcsOfPkgs(c, "modules")
 	// static call sites of every function (whole repo)
@@ -1060,7 +1060,7 @@ func precededInIteration(fn *ssa.Function, target ssa.Instruction, pred func(ssa
 // configPushRule: in package config every store to an option's active value is
 // followed, on every path to the end of the function, by handleOptionUpdate.
 func configPushRule(c *Ctx, r *Report, rule string) {
-	r.SetFloor(rule, 6)
+	r.SetFloor(rule, 3)
 	for _, fn := range funcsOfPkgs(c, "config") {
 		ord := map[string]int{}
 		eachInstr(fn, func(in ssa.Instruction) {
